@@ -9,7 +9,7 @@ from .. import world as W
 from . import _ws
 
 ID = 'C03'
-TIERS = {'quick': {'seeds': 4500, 'seconds': 75, 'determinism': 32},
+TIERS = {'quick': {'seeds': 4500, 'seconds': 45, 'determinism': 32},
          'thorough': {'seconds': 900, 'determinism': 256, 'minimise_s': 120}}
 RULE = ('fault-free worlds with suites nested to depth 4, layer/level declarations at any depth; '
         'option vectors over -t/-m/--layer (positive, negated, mixed), --at-level/--all/'
